@@ -1107,20 +1107,6 @@ let t03 =
 let t05 =
   b64 { qnum = (Zpos (XI (XO XH))); qden = (XO (XI (XO XH))) }
 
-(** val dockq_formula : q -> q -> q -> q -> q -> q **)
-
-let dockq_formula f l i d1 d2 =
-  qdiv
-    (qplus
-      (qplus f
-        (qdiv { qnum = (Zpos XH); qden = XH }
-          (qplus { qnum = (Zpos XH); qden = XH }
-            (qmult (qdiv l d1) (qdiv l d1)))))
-      (qdiv { qnum = (Zpos XH); qden = XH }
-        (qplus { qnum = (Zpos XH); qden = XH }
-          (qmult (qdiv i d2) (qdiv i d2))))) { qnum = (Zpos (XI XH)); qden =
-    XH }
-
 (** val levelb : nat -> q -> q -> q -> bool **)
 
 let levelb k f l i =
@@ -1151,6 +1137,20 @@ let capri_spec f l i =
   else if levelb (S (S O)) f l i
        then Medium
        else if levelb (S O) f l i then Acceptable else Incorrect
+
+(** val dockq_formula : q -> q -> q -> q -> q -> q **)
+
+let dockq_formula f l i d1 d2 =
+  qdiv
+    (qplus
+      (qplus f
+        (qdiv { qnum = (Zpos XH); qden = XH }
+          (qplus { qnum = (Zpos XH); qden = XH }
+            (qmult (qdiv l d1) (qdiv l d1)))))
+      (qdiv { qnum = (Zpos XH); qden = XH }
+        (qplus { qnum = (Zpos XH); qden = XH }
+          (qmult (qdiv i d2) (qdiv i d2))))) { qnum = (Zpos (XI XH)); qden =
+    XH }
 
 (** val vresS : string res -> v **)
 
